@@ -280,17 +280,26 @@ func c13Hex(c *Ctx) {
 	}
 	// the digits are parsed in base 16
 	exact := calleeOf(digitCall)
-	base16 := false
+	base16, wide := false, false
 	instrs(exact, func(b *ssa.BasicBlock, i int, in ssa.Instruction) {
 		if call, ok := in.(*ssa.Call); ok {
 			if cal := calleeOf(call); cal != nil && (cal.String() == "strconv.ParseInt" || cal.String() == "strconv.ParseUint") {
 				if n, ok := constIntArg(call.Call.Args[1]); ok && n == 16 {
 					base16 = true
 				}
+				// four hex digits need 16 value bits: a signed parse needs a constant size of 0 or > 16
+				if n, ok := constIntArg(call.Call.Args[2]); ok {
+					if cal.String() == "strconv.ParseUint" {
+						wide = n == 0 || n >= 16
+					} else {
+						wide = n == 0 || n > 16
+					}
+				}
 			}
 		}
 	})
 	c.R.Check(rule, "base-16", c.P.Pos(exact.Pos()), base16, "hex digits must be parsed in base 16")
+	c.R.Check(rule, "value-width", c.P.Pos(exact.Pos()), wide, "the parse of up to four hex digits must use a constant bit size that holds 0xFFFF (a signed parse of exactly 4*digits bits rejects every escape with the top bit set)")
 	c.R.Floor(rule, 6)
 }
 
